@@ -1,5 +1,9 @@
 import EgVerif.Proofs.BrokerSessions
+import EgVerif.Proofs.BrokerSessionsFine
 import EgVerif.Gen.FactsC16
+import EgVerif.Gen.FactsC16Locks
+import EgVerif.Proofs.BrokerSessionsIR
+import EgVerif.Proofs.SessionQoSIR
 /-!
 # C16 — MQTT sessions survive reconnect and client-id takeover as cleanSession dictates
 
@@ -386,5 +390,437 @@ theorem source_facts :
     Gen.FactsC16.registrationAndSetSessionInOneLockedSection = true ∧
     Gen.FactsC16.removeClientChecksDisconnected = true ∧
     Gen.FactsC16.deleteSessionLocksFirst = true := by decide
+
+/-! ### Extension mqtt: finer step granularity
+
+`FSt`/`FAct`/`fstep` (Model/BrokerSessions.lean, second half) split every coarse step wherever the
+Go code holds no common lock between two effects: the broker lock is an explicit part of the
+state (`Lk`), steps that do not take it (`subTM/subSess/unsubTM/unsubSess`, `storeSess`, `doStore`,
+`resubSnap/resubIns`, `close/asyncClose/wClose`, `adminDelete`) interleave with the sub-steps of a
+broker-locked section (`lockConn; lkGet; lkSnap; lkUnsub` and `tdHead|wErrHead; tdSnap; tdUnsub`),
+and the persisted copy is written by a separate, unordered `doStore`. A SUBSCRIBE/UNSUBSCRIBE
+packet *starts* only on the registered live connection but *finishes* unconditionally. -/
+
+/-- states reachable by fine steps of the repaired code from the empty broker -/
+inductive FReach : FSt → Prop
+  | init : FReach finit
+  | step {s s' : FSt} (a : FAct) : FReach s → fstep s a = some s' → FReach s'
+
+/-- **reach_inv_fine.** Every state reachable by fine steps — including the states *inside* the
+broker-locked sections — satisfies `FInv`: the registered live connection (whose own write loop is
+not tearing it down) owns the session-map entry, that entry is open and allocated, no
+`Session.close()` hits a closed session, and the holder of the broker lock has established what
+its next sub-step relies on. -/
+theorem reach_inv_fine {s : FSt} (r : FReach s) : FInv s := by
+  induction r with
+  | init => exact finv_init
+  | step a _ hs ih => exact finv_step ih hs
+
+theorem freach_runAllF {s s' : FSt} {l : List FAct} (r : FReach s) (h : runAllF s l = some s') : FReach s' := by
+  induction l generalizing s with
+  | nil => simp [runAllF] at h; subst h; exact r
+  | cons a rest ih =>
+    obtain ⟨s1, h1, h2⟩ := runAllF_cons_eq_some.mp h
+    exact ih (FReach.step a r h1) h2
+
+/-- `CurrentConnIntact` without its routing clause, at fine granularity, unconditionally: the
+session of the registered, live, running connection is the one in the session map and is open. -/
+theorem currentConn_session_fine {s : FSt} (r : FReach s) {k : Nat} (hc : s.base.client = some k)
+    (hd : (s.base.conn k).disc = false) (hw : (s.fc k).wl = false) (hr : (s.base.conn k).pc = Pc.running) :
+    s.base.sessMap = some (s.base.conn k).sess ∧ (s.base.sess (s.base.conn k).sess).closed = false := by
+  have h := reach_inv_fine r
+  have hsm := h.owns k hc hd hw (by simp [hr, Pc.active])
+  exact ⟨hsm, (h.openS _ hsm).1⟩
+
+theorem no_double_close_fine {s : FSt} (r : FReach s) : s.base.doubleClose = false := (reach_inv_fine r).noDouble
+
+/-- **takeover_teardown_safe_fine.** Connection `k` is registered and live. No *fine* teardown step
+of another connection `j` (read loop noticing the end; the three broker-locked sub-steps of
+`closeAndDelSession` from the read loop's defer or from the write loop; `c.close()` from either;
+`removeClient`; the asynchronous `go oldClient.close()`), taken at any point of any fine history,
+changes the registration, the session map, any session object, the persisted copy, the pending
+delete events, the TopicManager, the stores in flight, the broker lock or `k`'s own records. -/
+theorem takeover_teardown_safe_fine {s s' : FSt} {k j : Nat} {a : FAct} (r : FReach s)
+    (hc : s.base.client = some k) (hj : j ≠ k) (hlive : (s.base.conn k).disc = false)
+    (ha : IsTeardownOfF j a) (hs : fstep s a = some s') :
+    s'.base.client = some k ∧ s'.base.sessMap = s.base.sessMap ∧ s'.base.sess = s.base.sess ∧
+    s'.base.db = s.base.db ∧ s'.base.watch = s.base.watch ∧ s'.base.topicMgr = s.base.topicMgr ∧
+    s'.base.conn k = s.base.conn k ∧ s'.fc k = s.fc k ∧ s'.storeQ = s.storeQ ∧ s'.lock = s.lock := by
+  have f := superseded_frame_fine (reach_inv_fine r) hc hj hlive ha hs
+  exact ⟨f.base.client.trans hc, f.base.sessMap, f.base.sess, f.base.db, f.base.watch, f.base.topicMgr,
+    f.base.conn, f.fc, f.storeQ, f.lock⟩
+
+/-- **reconnect_restores_fine.** The stored session of the id is persistent with topics `F`; a new
+connection `k` connects with cleanSession=false. For *every* placement `t₁ … t₅` of fine teardown
+steps of other connections around `k`'s own fine steps — also inside `k`'s broker-locked section
+and between its topic snapshot and the insertion into the TopicManager — connection `k` ends
+registered and in its read loop, with a session holding exactly `F` that is the open one in the
+session map, and every topic of `F` is routed. -/
+theorem reconnect_restores_fine {s s' : FSt} (r : FReach s) {k : Nat} {F : List Nat}
+    {t₁ t₂ t₃ t₄ t₅ : List FAct}
+    (hst : storedSess s.base = some (F, false)) (hfresh : (s.base.conn k).disc = false)
+    (h₁ : OthersTeardownF k t₁) (h₂ : OthersTeardownF k t₂) (h₃ : OthersTeardownF k t₃)
+    (h₄ : OthersTeardownF k t₄) (h₅ : OthersTeardownF k t₅)
+    (hrun : runAllF s (FAct.lockConn k false :: (t₁ ++ FAct.lkGet k :: (t₂ ++ FAct.storeSess k :: (t₃ ++
+      FAct.resubSnap k :: (t₄ ++ FAct.resubIns k :: t₅))))) = some s') :
+    s'.base.client = some k ∧ s'.base.sessMap = some (s'.base.conn k).sess ∧
+    (s'.base.sess (s'.base.conn k).sess).topics = F ∧ (s'.base.sess (s'.base.conn k).sess).closed = false ∧
+    (s'.base.conn k).pc = Pc.running ∧ ∀ f ∈ F, f ∈ s'.base.topicMgr := by
+  obtain ⟨s1, hs1, h⟩ := runAllF_cons_eq_some.mp hrun
+  obtain ⟨s2, hr1, h⟩ := runAllF_append_eq_some.mp h
+  obtain ⟨s3, hs2, h⟩ := runAllF_cons_eq_some.mp h
+  obtain ⟨s4, hr3, h⟩ := runAllF_append_eq_some.mp h
+  obtain ⟨s5, hs4, h⟩ := runAllF_cons_eq_some.mp h
+  obtain ⟨s6, hr5, h⟩ := runAllF_append_eq_some.mp h
+  obtain ⟨s7, hs6, h⟩ := runAllF_cons_eq_some.mp h
+  obtain ⟨s8, hr7, h⟩ := runAllF_append_eq_some.mp h
+  obtain ⟨s9, hs8, hr9⟩ := runAllF_cons_eq_some.mp h
+  have hi := reach_inv_fine r
+  obtain ⟨q, g3, _, _, _⟩ := connect_reuses_fine hi hst hfresh h₁ hs1 hr1 hs2
+  have hi3 : FInv s3 := finv_step (finv_runAllF (finv_step hi hs1) hr1) hs2
+  obtain ⟨g, htm, hpc⟩ := reconnect_tail_fine hi3 g3 h₂ h₃ h₄ h₅ hr3 hs4 hr5 hs6 hr7 hs8 hr9
+  refine ⟨g.client, ?_, ?_, ?_, hpc, htm⟩
+  · rw [g.mine]; exact g.inMap
+  · rw [g.mine]; exact g.topics
+  · rw [g.mine]; exact g.opened
+
+/-- **Finding at fine granularity (`routing clause of CurrentConnIntact is false`).** Connection 0
+is in the middle of a SUBSCRIBE for topic 7 (`topicMgr.subscribe` done, `session.subscribe` not
+yet: client.go:360/365 share no lock) when connection 1 takes the id over reusing the session,
+re-subscribes, and UNSUBSCRIBEs topic 7 completely; then connection 0's `session.subscribe` runs.
+Connection 1 is registered, live and in its read loop, its session is the open one in the map —
+and holds topic 7, which the TopicManager does not route. -/
+def fineWitness : List FAct :=
+  [.lockConn 0 false, .lkGet 0, .storeSess 0, .resubSnap 0, .resubIns 0,
+   .subTM 0 7,
+   .lockConn 1 false, .lkGet 1, .asyncClose 0, .storeSess 1, .resubSnap 1, .resubIns 1,
+   .unsubTM 1 7, .unsubSess 1,
+   .subSess 0]
+
+theorem routing_fails_fine :
+    (runAllF finit fineWitness).isSome = true ∧
+    (let s := (runActsF finit fineWitness).base
+     s.client = some 1 ∧ (s.conn 1).disc = false ∧ (s.conn 1).pc = Pc.running ∧
+     s.sessMap = some (s.conn 1).sess ∧ (s.sess (s.conn 1).sess).closed = false ∧
+     (s.sess (s.conn 1).sess).topics = [7] ∧ s.topicMgr = []) := by decide
+
+/-! #### Non-vacuity (fine) -/
+
+/-- a fine history in which every step is enabled: connection 0 connects and subscribes 7;
+connection 1 takes over *while connection 0's teardown is interleaved with its sub-steps*. The
+state before `tdHead 0` meets the hypotheses of `takeover_teardown_safe_fine` (`k = 1`, `j = 0`). -/
+def fineTakeover : List FAct :=
+  [.lockConn 0 false, .lkGet 0, .storeSess 0, .doStore 0, .resubSnap 0, .resubIns 0,
+   .subTM 0 7, .subSess 0, .doStore 0,
+   .lockConn 1 false, .asyncClose 0, .lkGet 1, .noticeEnd 0, .storeSess 1, .tdHead 0, .resubSnap 1,
+   .close 0, .resubIns 1, .remove 0]
+
+example : (runAllF finit fineTakeover).isSome = true := by decide
+
+example :
+    let s := (runActsF finit fineTakeover).base
+    s.client = some 1 ∧ (s.conn 1).pc = Pc.running ∧ s.sessMap = some (s.conn 1).sess ∧
+    (s.sess (s.conn 1).sess).topics = [7] ∧ s.topicMgr = [7] ∧ s.db = some ([7], false) := by decide
+
+example : FReach ((runAllF finit fineTakeover).getD finit) := by
+  cases h : runAllF finit fineTakeover with
+  | none => exact FReach.init
+  | some s' => exact freach_runAllF FReach.init h
+
+/-- hypotheses of `reconnect_restores_fine`: after connection 0 ended normally its persistent
+session with topic 7 lives only in the persisted copy; the run of the theorem (with empty `tᵢ`) is
+enabled. -/
+example :
+    let s := runActsF finit [.lockConn 0 false, .lkGet 0, .storeSess 0, .doStore 0, .resubSnap 0, .resubIns 0,
+      .subTM 0 7, .subSess 0, .doStore 0, .noticeEnd 0, .tdHead 0, .tdSnap 0, .tdUnsub 0, .close 0, .remove 0]
+    storedSess s.base = some ([7], false) ∧ s.base.sessMap = none ∧ s.base.client = none ∧ s.lock = Lk.free ∧
+    (runAllF s [.lockConn 1 false, .lkGet 1, .storeSess 1, .resubSnap 1, .resubIns 1]).isSome = true := by decide
+
+/-! ### Extension mqtt: regenerated tie by translation (irlib, `harness/factextract/facts_c16_ir.go`)
+
+`Gen/FactsC16IR.lean` is translated from the bodies of the Go functions on every run; the theorems state that
+the translation equals the corresponding part of the model for ALL states (proofs: `Proofs/BrokerSessionsIR.lean`). -/
+
+/-- `SessionManager.delLocal` -/
+theorem delLocal_regenerated_from_source (s : St) :
+    Gen.FactsC16IR.extractionFailed = false ∧ Gen.FactsC16IR.delLocalIR s = Gen.FactsC16IR.delLocalM s :=
+  ⟨by decide, BrokerSessions.delLocal_regenerated_from_source s⟩
+
+/-- **`Client.closeAndDelSession`** = the `cleanup` step (ownership guard "is this still the current client",
+fix 924acbc) followed by the `close` step: session map, persisted copy and subscriptions are torn down only if
+no other connection is registered for the id. -/
+theorem closeAndDel_regenerated_from_source (s : St) (k : Nat) :
+    Gen.FactsC16IR.extractionFailed = false ∧
+    Gen.FactsC16IR.closeAndDelIR s k = markDisc (teardown true s k) k :=
+  ⟨by decide, BrokerSessions.closeAndDel_regenerated_from_source s k⟩
+
+/-- `Broker.removeClient` = the state change of the `remove` step -/
+theorem removeClient_regenerated_from_source (s : St) (k : Nat) (h : (s.conn k).pc = Pc.closed) :
+    Gen.FactsC16IR.extractionFailed = false ∧
+    step true s (.remove k) = some (setPc (Gen.FactsC16IR.removeClientIR s) k Pc.done) :=
+  ⟨by decide, BrokerSessions.remove_step_regenerated_from_source s k h⟩
+
+/-- `Broker.deleteSession` = the model's `deleteSession` (hypothesis: no `go oldClient.close()` still pending for
+an already disconnected registered client — the model would additionally clear that no-op request;
+`deleteSession_regenerated_from_source_gen` in Proofs states the general form without hypothesis). -/
+theorem deleteSession_regenerated_from_source (s : St)
+    (h : ∀ o, s.client = some o → (s.conn o).disc = true → (s.conn o).closeReq = false) :
+    Gen.FactsC16IR.extractionFailed = false ∧ Gen.FactsC16IR.deleteSessionIR s = deleteSession s :=
+  ⟨by decide, BrokerSessions.deleteSession_regenerated_from_source s h⟩
+
+/-- **`Broker.setSession`**: which session object survives a (re)connect / takeover -/
+theorem setSession_regenerated_from_source (s : St) (k : Nat) (clean : Bool) :
+    Gen.FactsC16IR.extractionFailed = false ∧ Gen.FactsC16IR.setSessionIR s k clean = setSession true s k clean :=
+  ⟨by decide, BrokerSessions.setSession_regenerated_from_source s k clean⟩
+
+/-- non-vacuity: on the takeover state (connection 1 registered, connection 0 superseded) the generated
+`closeAndDelSession` of connection 0 leaves session map and TopicManager alone; of connection 1 it clears them -/
+example :
+    let s := runActs true BrokerSessions.init [.connectLocked 0 false, .storeSess 0, .resubscribe 0, .subscribe 0 7,
+      .connectLocked 1 false, .storeSess 1, .resubscribe 1]
+    (Gen.FactsC16IR.closeAndDelIR s 0).sessMap = s.sessMap ∧ (Gen.FactsC16IR.closeAndDelIR s 0).topicMgr = [7] ∧
+    (Gen.FactsC16IR.closeAndDelIR s 1).sessMap = none ∧ (Gen.FactsC16IR.closeAndDelIR s 1).topicMgr = [] := by decide
+
+/-! #### The routing clause at fine granularity (partial) and refinement -/
+
+/-- fine histories in which no SUBSCRIBE/UNSUBSCRIBE packet in flight is *finished* after its
+connection has been superseded (`straddles`): the excluding hypothesis of `routing_fails_fine` -/
+inductive FReachNS : FSt → Prop
+  | init : FReachNS finit
+  | step {s s' : FSt} (a : FAct) : FReachNS s → straddles s a = false → fstep s a = some s' → FReachNS s'
+
+theorem freachNS_toFReach {s : FSt} (r : FReachNS s) : FReach s := by
+  induction r with
+  | init => exact FReach.init
+  | step a _ _ hs ih => exact FReach.step a ih hs
+
+theorem reach_routed_fine {s : FSt} (r : FReachNS s) : FRt s := by
+  induction r with
+  | init => exact frt_init
+  | step a r0 hns hs ih => exact frt_step (reach_inv_fine (freachNS_toFReach r0)) ih hs hns
+
+/-- **currentConnIntact_fine_partial.** (Full statement = the same for every `FReach` state; it is
+FALSE, see `routing_fails_fine`.) In every state of a fine history without a straddling packet:
+the registered, live connection in its read loop, whose write loop is not tearing it down, has
+its session in the session map, open, and every topic of it is routed by the TopicManager or is
+the topic of its *own* UNSUBSCRIBE in flight (between client.go:381 and :385). -/
+theorem currentConnIntact_fine_partial {s : FSt} (r : FReachNS s) {k : Nat} (hc : s.base.client = some k)
+    (hd : (s.base.conn k).disc = false) (hw : (s.fc k).wl = false) (hr : (s.base.conn k).pc = Pc.running) :
+    s.base.sessMap = some (s.base.conn k).sess ∧ (s.base.sess (s.base.conn k).sess).closed = false ∧
+    ∀ f ∈ (s.base.sess (s.base.conn k).sess).topics, f ∈ s.base.topicMgr ∨ (s.fc k).pend = some (false, f) := by
+  obtain ⟨h1, h2⟩ := currentConn_session_fine (freachNS_toFReach r) hc hd hw hr
+  exact ⟨h1, h2, (reach_routed_fine r).routed k hc hd hw hr⟩
+
+/-- the witness of `routing_fails_fine` is excluded only by its last step -/
+example : straddles (runActsF finit fineWitness.dropLast) (FAct.subSess 0) = true := by decide
+
+/-- `fineTakeover` is a history without straddling packet (every step enabled, none straddles) -/
+def nsRun : FSt → List FAct → Bool
+  | _, [] => true
+  | s, a :: rest => !straddles s a && (match fstep s a with | some s' => nsRun s' rest | none => false)
+
+example : nsRun finit fineTakeover = true := by decide
+
+/-- **coarse_history_is_fine.** Refinement: every state reachable by the coarse steps (`Reach`) is
+the `base` of a state reachable by fine steps in which nothing is in flight — each coarse step is
+the run `expandF` of its fine steps with nothing scheduled in between. Hence everything proved for
+all fine histories holds for all coarse ones, and the coarse model adds no behaviour. -/
+theorem coarse_history_is_fine {s : St} (r : Reach s) : ∃ fs, FReach fs ∧ fs.base = s ∧ Quiet fs := by
+  induction r with
+  | init => exact ⟨finit, FReach.init, rfl, rfl, rfl, fun _ => rfl⟩
+  | step a _ hs ih =>
+    obtain ⟨fs, fr, hb, q⟩ := ih
+    subst hb
+    obtain ⟨fs', hrun, hb', q'⟩ := coarse_refines q hs
+    exact ⟨fs', freach_runAllF fr hrun, hb', q'⟩
+
+/-- non-vacuity: the coarse `witness` history, expanded -/
+example : ∃ fs, FReach fs ∧ fs.base.client = some 1 ∧ Quiet fs := by
+  have hcl : (runAll BrokerSessions.init witness).map (·.client) = some (some 1) := by decide
+  cases h : runAll BrokerSessions.init witness with
+  | none => rw [h] at hcl; cases hcl
+  | some s =>
+    rw [h] at hcl
+    obtain ⟨fs, fr, hb, q⟩ := coarse_history_is_fine (reach_runAll Reach.init h)
+    exact ⟨fs, fr, by rw [hb]; exact Option.some.inj hcl, q⟩
+
+/-! #### Lock scopes regenerated from the source (extension mqtt, `harness/factextract/facts_c16_locks.go`) -/
+
+/-- position of the first occurrence -/
+def firstIdx (l : List (String × String)) (a : String × String) : Nat :=
+  match l with
+  | [] => 0
+  | x :: r => if x == a then 0 else firstIdx r a + 1
+
+/-- both accesses occur and the first `a` precedes the first `b` in control-flow order -/
+def evBefore (l : List (String × String)) (a b : String × String) : Bool :=
+  l.contains a && l.contains b && decide (firstIdx l a < firstIdx l b)
+
+/-- **lock_scopes.** The lock-scope list the fine model assumes, regenerated from the working tree
+on every run (`(locks held, access)`; a lock is named by the type embedding the mutex):
+
+* `handleConn`: under the broker lock exactly the accesses to `b.clients`, `go oldClient.close()` and
+  `setSession` (= `lockConn … lkUnsub`); without any lock, after it, `updateEGName` (`storeSess`), then
+  `allSubscribes` (`resubSnap`) before `topicMgr.subscribe` (`resubIns`) before `readLoop`;
+  `setSession` takes no lock itself, calls `sessMgr.get` first and `allSubscribes` before
+  `topicMgr.unsubscribe`;
+* `closeAndDelSession`: ownership check, `delLocal`, `delDB`, `allSubscribes`, `topicMgr.unsubscribe`
+  all under the broker lock (`tdHead; tdSnap; tdUnsub`), `c.close()` after it without (`close`/`wClose`);
+* `removeClient`, `deleteSession`: every access under the broker lock (one step each);
+* `processSubscribe`/`processUnsubscribe`: no lock of their own; the TopicManager call precedes the
+  Session call (`subTM; subSess`, `unsubTM; unsubSess`);
+* `Session.subscribe/unsubscribe/updateEGName`: topics update and `store()` under the Session lock;
+  `store()` hands the encoded value to a goroutine (`doStore` is a separate, later step);
+  `allSubscribes` reads the topics under the Session lock; `Client.close` flips the status flag and
+  closes `done` under the Client lock; the TopicManager methods work under the TopicManager lock;
+  the SessionManager methods take no lock (sync.Map / store operations). -/
+theorem lock_scopes :
+    Gen.FactsC16Locks.extractionFailed = false ∧
+    -- handleConn
+    Gen.FactsC16Locks.handleConnRegions =
+      [("", ["Broker.connectionValidation", "Client.readLoop", "Session.allSubscribes", "Session.updateEGName",
+             "TopicManager.subscribe", "go Client.writeLoop"]),
+       ("Broker", ["Broker.clients.len", "Broker.clients.load", "Broker.clients.store", "Broker.setSession",
+                   "go Client.close"])] ∧
+    evBefore Gen.FactsC16Locks.handleConnEvents ("Broker", "Broker.setSession") ("", "Session.updateEGName") = true ∧
+    evBefore Gen.FactsC16Locks.handleConnEvents ("Broker", "Broker.clients.store") ("", "Session.updateEGName") = true ∧
+    evBefore Gen.FactsC16Locks.handleConnEvents ("", "Session.allSubscribes") ("", "TopicManager.subscribe") = true ∧
+    evBefore Gen.FactsC16Locks.handleConnEvents ("", "Session.updateEGName") ("", "Client.readLoop") = true ∧
+    evBefore Gen.FactsC16Locks.handleConnEvents ("", "TopicManager.subscribe") ("", "Client.readLoop") = true ∧
+    Gen.FactsC16Locks.setSessionRegions =
+      [("", ["Session.allSubscribes", "Session.cleanSession", "Session.close", "SessionManager.get",
+             "SessionManager.newSessionFromConn", "TopicManager.unsubscribe"])] ∧
+    evBefore Gen.FactsC16Locks.setSessionEvents ("", "SessionManager.get") ("", "Session.allSubscribes") = true ∧
+    evBefore Gen.FactsC16Locks.setSessionEvents ("", "Session.allSubscribes") ("", "TopicManager.unsubscribe") = true ∧
+    -- closeAndDelSession, removeClient, deleteSession, Client.close
+    Gen.FactsC16Locks.closeAndDelSessionRegions =
+      [("", ["Client.close"]),
+       ("Broker", ["Broker.clients.load", "Session.allSubscribes", "Session.cleanSession", "SessionManager.delDB",
+                   "SessionManager.delLocal", "TopicManager.unsubscribe"])] ∧
+    evBefore Gen.FactsC16Locks.closeAndDelSessionEvents ("Broker", "Session.allSubscribes")
+      ("Broker", "TopicManager.unsubscribe") = true ∧
+    evBefore Gen.FactsC16Locks.closeAndDelSessionEvents ("Broker", "TopicManager.unsubscribe") ("", "Client.close") = true ∧
+    Gen.FactsC16Locks.removeClientRegions =
+      [("Broker", ["Broker.clients.delete", "Broker.clients.load", "Client.disconnected"])] ∧
+    Gen.FactsC16Locks.deleteSessionRegions =
+      [("Broker", ["Broker.clients.delete", "Broker.clients.load", "Client.close", "Client.disconnected"])] ∧
+    Gen.FactsC16Locks.clientCloseRegions.lookup "Client" =
+      some ["Client.disconnected", "Client.done.close", "Client.statusFlag.atomicStore"] := by decide
+
+/-- `lock_scopes`, continued: packet processing (no lock of its own, TopicManager before Session) -/
+theorem lock_scopes_packets :
+    Gen.FactsC16Locks.extractionFailed = false ∧
+    Gen.FactsC16Locks.processSubscribeRegions =
+      [("", ["Client.writePacket", "Session.subscribe", "TopicManager.subscribe"])] ∧
+    evBefore Gen.FactsC16Locks.processSubscribeEvents ("", "TopicManager.subscribe") ("", "Session.subscribe") = true ∧
+    Gen.FactsC16Locks.processUnsubscribeRegions =
+      [("", ["Client.writePacket", "Session.unsubscribe", "TopicManager.unsubscribe"])] ∧
+    evBefore Gen.FactsC16Locks.processUnsubscribeEvents ("", "TopicManager.unsubscribe") ("", "Session.unsubscribe") = true := by
+  decide
+
+/-- `lock_scopes`, continued: the own-lock scopes of Session / TopicManager, the lock-free
+SessionManager, the asynchronous store -/
+theorem lock_scopes_inner :
+    Gen.FactsC16Locks.extractionFailed = false ∧
+    Gen.FactsC16Locks.sessionSubscribeRegions = [("Session", ["Session.store", "SessionInfo.Topics.store"])] ∧
+    Gen.FactsC16Locks.sessionUnsubscribeRegions = [("Session", ["Session.store", "SessionInfo.Topics.delete"])] ∧
+    Gen.FactsC16Locks.sessionAllSubscribesRegions = [("Session", ["SessionInfo.Topics.range"])] ∧
+    Gen.FactsC16Locks.sessionUpdateEGNameRegions = [("Session", ["Session.store"])] ∧
+    Gen.FactsC16Locks.sessionStoreRegions = [("", ["Session.encode", "go Session.storeCh.send"])] ∧
+    Gen.FactsC16Locks.sessMgrGetRegions =
+      [("", ["SessionManager.newSessionFromYaml", "storage.get", "sync.Map.Load", "sync.Map.Store"])] ∧
+    Gen.FactsC16Locks.sessMgrDelLocalRegions = [("", ["Session.close", "sync.Map.LoadAndDelete"])] ∧
+    Gen.FactsC16Locks.sessMgrDelDBRegions = [("", ["storage.delete"])] ∧
+    Gen.FactsC16Locks.sessMgrNewSessionFromConnRegions = [("", ["sync.Map.Store"])] ∧
+    evBefore Gen.FactsC16Locks.sessMgrDoStoreEvents ("", "SessionManager.storeCh.recv") ("", "storage.put") = true ∧
+    Gen.FactsC16Locks.topicMgrSubscribeRegions = [("TopicManager", ["TopicManager.getLevels", "TopicManager.insert"])] ∧
+    Gen.FactsC16Locks.topicMgrUnsubscribeRegions = [("TopicManager", ["TopicManager.remove"])] := by decide
+
+/-- non-vacuity of `evBefore`: it is false for the reversed pair -/
+example : evBefore Gen.FactsC16Locks.processSubscribeEvents ("", "Session.subscribe") ("", "TopicManager.subscribe") = false := by
+  decide
+
+/-- **`Broker.handleConn`** — the whole connect program (first packet, validation, the locked section with
+the takeover mark / cap check / registration / `setSession`, CONNACK, `updateEGName`, re-subscription from the
+session, `readLoop`): refused for any reason ⇒ the broker state is untouched; CONNACK cannot be written ⇒ exactly
+`connectLocked`; otherwise `connectLocked`, then the tail `connectTail`. -/
+theorem handleConn_regenerated_from_source (s : St) (k : Nat) (clean readOK isConnect valid connackOK : Bool)
+    (nclients maxConn : Int) :
+    Gen.FactsC16IR.extractionFailed = false ∧
+    Gen.FactsC16IR.handleConnIR s k clean readOK isConnect valid connackOK nclients maxConn =
+      if accepted s readOK isConnect valid nclients maxConn then
+        (if connackOK then connectTail (connectLocked true s k clean) k else connectLocked true s k clean)
+      else s :=
+  ⟨by decide, BrokerSessions.handleConn_regenerated_from_source s k clean readOK isConnect valid connackOK nclients maxConn⟩
+
+/-- …and the accepted, acknowledged path is the model's atomic steps `connectLocked k; storeSess k; resubscribe k`
+executed one after the other (what the interleaving theorems then break up). -/
+theorem handleConn_is_three_steps (s : St) (k : Nat) (clean : Bool) (h : (s.conn k).pc = Pc.new) :
+    ((step true s (.connectLocked k clean)).bind (fun s1 => step true s1 (.storeSess k))).bind
+        (fun s2 => step true s2 (.resubscribe k)) =
+      some (Gen.FactsC16IR.handleConnIR s k clean true true true true 0 0) := by
+  rw [BrokerSessions.handleConn_steps_regenerated_from_source s k clean h,
+    BrokerSessions.handleConn_regenerated_from_source]
+  simp [accepted]
+
+/-! ### Extension mqtt: the QoS of restored subscriptions (`Model/SessionQoS.lean`)
+
+The step model above tracks *filters*. "A client that reconnects with cleanSession=false gets its previous
+subscriptions back" is about filter AND QoS: re-subscribing a filter at another QoS must survive the reconnect
+(seeded change C15-m4: the session was persisted only when the SET of filters changed). -/
+
+open EgVerif.SessionQoS in
+/-- **Reconnect restores filter and QoS — every history.** After ANY history of SUBSCRIBE packets (any filters,
+any QoS, re-subscriptions at another QoS included), UNSUBSCRIBE packets and persistent reconnects, the persisted
+copy equals the live map and the routing table agrees with it; hence one more normal end + CONNECT with
+cleanSession=false restores, in the session, in the persisted copy and in the TopicManager, exactly the live
+subscriptions at disconnect — filter and QoS. -/
+theorem reconnect_restores_qos (evs : List SessionQoS.Ev) :
+    let s := evRun Q.init evs
+    (step (step s .dropPersistent) .resume).live = s.live ∧
+    (step (step s .dropPersistent) .resume).db = s.live ∧
+    (∀ f, EgVerif.Topic.alGet f (step (step s .dropPersistent) .resume).tm = EgVerif.Topic.alGet f s.live) ∧
+    s.db = s.live ∧ (∀ f, EgVerif.Topic.alGet f s.tm = EgVerif.Topic.alGet f s.live) := by
+  intro s
+  have inv := inv_evRun evs inv_init
+  obtain ⟨h1, h2, h3⟩ := SessionQoS.reconnect_restores inv
+  exact ⟨h1, h2, h3, inv.db, inv.tm⟩
+
+open EgVerif.SessionQoS in
+/-- **…and that QoS is the one last asked for**: after any such history, the QoS of a filter in the live session
+(hence in the persisted copy and the routing table) is that of the latest SUBSCRIBE naming it, unless a later
+UNSUBSCRIBE removed it; reconnects do not matter. This is the check the judge applies to every observed snapshot
+(`qosCheck` in `Driver/C16.lean`). -/
+theorem qos_is_last_subscribed (evs : List SessionQoS.Ev) (f : Nat) :
+    EgVerif.Topic.alGet f (evRun Q.init evs).live = wantedAll (fun _ => none) evs f ∧
+    EgVerif.Topic.alGet f (evRun Q.init evs).tm = wantedAll (fun _ => none) evs f ∧
+    EgVerif.Topic.alGet f (evRun Q.init evs).db = wantedAll (fun _ => none) evs f := by
+  have h := live_eq_wanted evs (fun _ => none) inv_init (fun _ => rfl) f
+  have inv := inv_evRun evs inv_init
+  exact ⟨h, by rw [inv.tm f, h], by rw [inv.db, h]⟩
+
+/-- `Session.subscribe` regenerated from source: all filters written with their QoS, then stored unconditionally -/
+theorem sessSubscribe_regenerated_from_source (fs : List (Nat × Nat)) (live db : SessionQoS.TMap) :
+    Gen.FactsC16IR.extractionFailed = false ∧
+    Gen.FactsC16IR.sessSubscribeIR (fs.map Prod.fst) (fs.map Prod.snd) live db = SessionQoS.sessSubscribe fs live :=
+  ⟨by decide, SessionQoS.sessSubscribe_regenerated_from_source fs live db⟩
+
+/-- `Session.unsubscribe` regenerated from source -/
+theorem sessUnsubscribe_regenerated_from_source (fs : List Nat) (live db : SessionQoS.TMap) :
+    Gen.FactsC16IR.extractionFailed = false ∧
+    Gen.FactsC16IR.sessUnsubscribeIR fs live db = SessionQoS.sessUnsubscribe fs live :=
+  ⟨by decide, SessionQoS.sessUnsubscribe_regenerated_from_source fs live db⟩
+
+/-- `Session.allSubscribes` regenerated from source -/
+theorem allSubscribes_regenerated_from_source (live : SessionQoS.TMap) :
+    Gen.FactsC16IR.extractionFailed = false ∧ Gen.FactsC16IR.allSubscribesIR live = SessionQoS.allSubs live :=
+  ⟨by decide, SessionQoS.allSubscribes_regenerated_from_source live⟩
+
+/-- non-vacuity: subscribe 7@0, re-subscribe 7@1 (same filter set!), 9@0, unsubscribe 9, reconnect: topic 7 is
+restored with QoS 1 everywhere -/
+example :
+    let s := SessionQoS.evRun SessionQoS.Q.init
+      [.subscribe [(7, 0)], .subscribe [(7, 1), (9, 0)], .unsubscribe [9], .reconnect]
+    s.live = [(7, 1)] ∧ s.db = [(7, 1)] ∧ s.tm = [(7, 1)] := by decide
 
 end EgVerif.C16
